@@ -184,6 +184,8 @@ func checkC09(r *Report) {
 	touchBothFlagsRule(r, p, "C09.e/TOUCH-BOTH-FLAGS")
 	nK := skipCounterRule(r, p, "C09.g/SKIP-COUNTER", "semver")
 	r.floor("C09.g/SKIP-COUNTER", "merge loops (inner index starting at the outer index + 1) in package semver", nK, 1)
+	nS := successorRule(r, p, "C09.h/SUCCESSOR")
+	r.floor("C09.h/SUCCESSOR", "successor computations (inc outside the operator desugaring) in package semver", nS, 1)
 	nF := canonFreshRule(r, p, "C09.f/CANON-FRESH")
 	r.floor("C09.f/CANON-FRESH", "calls of canon in package semver", nF, 3)
 }
@@ -503,6 +505,100 @@ func skipCounterRule(r *Report, p *Prog, rule string, pkgs ...string) int {
 				}
 				return true
 			})
+		}
+	}
+	return n
+}
+
+// successorRule (C09.h): canon decides that two spans with different bounds
+// adjoin by computing the successor of the lower span's upper bound
+// (max.copy(); inc()) and comparing it with the next lower bound.
+//
+//	(1) SUCCESSOR-COMPLETE: Version.inc steps by the last number that was
+//	    written ("2" -> "3", "2.0" -> "2.1": it serves the desugaring of
+//	    operators on partial versions). Outside that desugaring
+//	    (opVersionToSpan) inc is a successor function only on a completed
+//	    version: a fill on the same value precedes it. Otherwise "<2 || >=2.5.0"
+//	    is found to adjoin and the gap 2.0.0..2.5.0 is swallowed.
+//	(2) ADJOIN-FLAGS: the successor of max is the next version of the SPAN only
+//	    if max belongs to it, and next.min only starts the next span if it
+//	    belongs to that: the branch that holds the successor test reads
+//	    maxOpen and minOpen. Otherwise [1.0.0:2.0.0) and (2.0.0:...] are fused
+//	    and the excluded 2.0.0 is matched.
+func successorRule(r *Report, p *Prog, rule string) int {
+	n := 0
+	for _, f := range p.Funcs {
+		if f.Pkg == nil || f.Blocks == nil || f.Pkg.Pkg.Path() != modPrefix+"semver" || f.Synthetic != "" {
+			continue
+		}
+		if fnKey(f) == "semver.opVersionToSpan" {
+			continue
+		}
+		per := 0
+		for _, b := range f.Blocks {
+			for i, in := range b.Instrs {
+				c, ok := in.(*ssa.Call)
+				if !ok || staticCalleeName(c) != "(*semver.Version).inc" {
+					continue
+				}
+				n++
+				per++
+				v := c.Common().Args[0]
+				key1 := fmt.Sprintf("%s: successor #%d is taken of a completed version", fnKey(f), per)
+				filled := false
+				for _, b2 := range f.Blocks {
+					for j, in2 := range b2.Instrs {
+						c2, ok := in2.(*ssa.Call)
+						if !ok || staticCalleeName(c2) != "(*semver.Version).fill" || c2.Common().Args[0] != v {
+							continue
+						}
+						if (b2 == b && j < i) || (b2 != b && b2.Dominates(b)) {
+							filled = true
+						}
+					}
+				}
+				if filled {
+					r.ok(rule, key1, p.pos(c.Pos()), "fill precedes inc on the same value")
+				} else {
+					r.bad(rule, key1, p.pos(c.Pos()), "inc is used as a successor function on a bound that may be a partial version: inc steps by the last number written (\"2\" -> \"3\", \"2.0\" -> \"2.1\"), so a bound written with fewer than three numbers is found to adjoin anything up to a major or minor version away and the gap between the spans is swallowed")
+				}
+				// (2) the region holding the successor test: blocks dominated by the block of the copy
+				start := b
+				if cp, ok := v.(*ssa.Call); ok {
+					start = cp.Block()
+				}
+				readsMax, readsMin := false, false
+				for _, b2 := range f.Blocks {
+					if b2 != start && !start.Dominates(b2) {
+						continue
+					}
+					for _, in2 := range b2.Instrs {
+						name := ""
+						switch x := in2.(type) {
+						case *ssa.Field:
+							if strings.HasSuffix(x.X.Type().String(), "semver.span") {
+								name = x.X.Type().Underlying().(*types.Struct).Field(x.Field).Name()
+							}
+						case *ssa.FieldAddr:
+							if strings.HasSuffix(x.X.Type().String(), "semver.span") {
+								name = x.X.Type().Underlying().(*types.Pointer).Elem().Underlying().(*types.Struct).Field(x.Field).Name()
+							}
+						}
+						switch name {
+						case "maxOpen":
+							readsMax = true
+						case "minOpen":
+							readsMin = true
+						}
+					}
+				}
+				key2 := fmt.Sprintf("%s: successor test #%d consults the open flags of the touching ends", fnKey(f), per)
+				if readsMax && readsMin {
+					r.ok(rule, key2, p.pos(c.Pos()), "the branch that holds the successor test reads maxOpen and minOpen")
+				} else {
+					r.bad(rule, key2, p.pos(c.Pos()), "the branch that decides whether two spans with different bounds adjoin never looks at maxOpen of the lower span or minOpen of the upper one: the successor of an excluded upper bound is taken as if the bound belonged to the span, so [a:b) and (b:c] are fused and b, which neither contains, is matched")
+				}
+			}
 		}
 	}
 	return n
